@@ -7,7 +7,7 @@ P = "PcVerif.Props.C12."
 THEOREMS = [P + t for t in ["vtt_settings_arith", "vtt_settings_no_padding", "vtt_align_names", "vtt_settings_verbatim"]]
 HAL = [None, "left", "center", "right", "start", "end"]
 VAL = [None, "top", "center", "bottom"]
-PCT = [0, 10, 12.5, 33.33, 50, 80]
+PCT = [0, 10, 12.5, 33.33, 50, 80, 16.1, 20.1, 66.1, 70.1]
 
 
 def make(tier, seed):
@@ -31,9 +31,9 @@ def mk_layout_desc(rng, with_origin=None):
     if with_origin or (with_origin is None and rng.random() < 0.75):
         d["origin"] = ["%s%%" % rng.choice(PCT), "%s%%" % rng.choice(PCT)]
     if rng.random() < 0.6:
-        d["extent"] = ["%s%%" % rng.choice([20, 33.33, 50, 80, 100]), "%s%%" % rng.choice([10, 15, 50, 90])]
+        d["extent"] = ["%s%%" % rng.choice([20, 33.33, 50, 80, 100, 66.1, 70.1, 20.1]), "%s%%" % rng.choice([10, 15, 50, 90])]
     if rng.random() < 0.5:
-        d["padding"] = ["%s%%" % rng.choice([0, 1, 2.5, 5]) for _ in range(4)]
+        d["padding"] = ["%s%%" % rng.choice([0, 1, 2.5, 5, 6.1, 10.1]) for _ in range(4)]
     h, v = rng.choice(HAL), rng.choice(VAL)
     if h or v:
         d["align"] = [h, v]
@@ -50,8 +50,15 @@ def parse_settings(line):
 
 
 def pct_str(q):
-    from pycaption.geometry import Size, UnitEnum
-    return str(Size(float(q), UnitEnum.PERCENT))
+    """a percentage as WebVTT wants it: at most two decimals, no trailing zeros -- written out here from the exact value,
+    not with the library's own formatter"""
+    n = round(Fraction(q) * 100)
+    whole, frac = divmod(abs(n), 100)
+    t = "%d.%02d" % (whole, frac)
+    t = t.rstrip("0")
+    if t.endswith("."):
+        t = t[:-1]
+    return ("-" if n < 0 else "") + t + "%"
 
 
 def explore(chk):
